@@ -444,6 +444,36 @@ def s4_nodes(inst, rep, rid="S4"):
 TREE_OPS = ("CstData::open", "CstData::open_before", "CstData::close", "CstData::close_root", "CstData::mark")
 
 
+def _closes_param(inst, name):
+    """`name` is a skeleton helper that closes the mark it is given as a parameter"""
+    for rel, body in inst.fns.items():
+        if name.endswith(rel) and rel.startswith("Parser::"):
+            for pt, nm, d, a, t in calls(body):
+                if nm.endswith("CstData::close") and len(a) > 1 and a[1][0] == "param":
+                    return True
+    return False
+
+
+def _s5_callers_ok(inst, rel, body, args, tail):
+    sites = []
+    for crel, cb in generated_bodies(inst):
+        for cpt, nm, d, a, t in calls(cb):
+            if nm.endswith("::" + rel) or nm == rel or nm.endswith(rel):
+                sites.append((crel, cb, cpt, a))
+    if not sites:
+        return False
+    for crel, cb, cpt, a in sites:
+        cen = [p[0] for p, nm, d, aa, t in calls(cb) if nm.endswith("Parser::close_error_node")]
+        if any(cb.dominates(x, cpt[0]) and x != cpt[0] for x in cen):
+            continue
+        if crel == "Parser::close_error_node" and tail == "CstData::close" and len(args) > 1 and args[1][0] == "param":
+            idx = args[1][1] - 1
+            if idx < len(a) and any(is_field(x, "Parser", "error_node") for x in walk(a[idx])):
+                continue
+        return False
+    return True
+
+
 def s5_errnode(inst, rep, rid="S5"):
     rep.rule(rid, "DOM: in every Parser method each call of CstData::{open, open_before, close, close_root, mark} is dominated by a "
                   "call of close_error_node (exceptions: the open *of* the error node under error_node.is_none(), and the close inside "
@@ -472,7 +502,16 @@ def s5_errnode(inst, rep, rid="S5"):
                 if stored:
                     rep.ok(rid, "%s advance_with_error opens the error node" % inst.label)
                     continue
+            if rel.startswith("Parser::advance_with_error::{closure") and tail == "CstData::open":
+                # `self.error_node.get_or_insert_with(|| data.open())`: the closure runs only when there is no error node, its result becomes the node
+                parent = inst.fns.get("Parser::advance_with_error")
+                if parent is not None and any(_method(d) == "get_or_insert_with" and any(is_field(x, "Parser", "error_node") for x in walk(a[0])) for p_, nm, d, a, t in calls(parent)):
+                    rep.ok(rid, "%s advance_with_error opens the error node through error_node.get_or_insert_with" % inst.label)
+                    continue
             dom = any(body.dominates(cb, pt[0]) and cb != pt[0] for cb in cen_blocks)
+            if not dom:
+                # a helper: every call site of this function is itself behind close_error_node, or is close_error_node handing over the error node
+                dom = _s5_callers_ok(inst, rel, body, args, tail)
             if dom:
                 rep.ok(rid, "%s %s: %s dominated by close_error_node" % (inst.label, rel, tail))
             else:
@@ -483,7 +522,7 @@ def s5_errnode(inst, rep, rid="S5"):
                 issome = val[0] == "agg" and val[1][0] == "adt" and val[1][2] == "Some"
                 if isnone and rel == "Parser::close_error_node":
                     # after the close
-                    cl = [p[0] for p, nm, d, a, t in calls(body) if nm.endswith("CstData::close")]
+                    cl = [p[0] for p, nm, d, a, t in calls(body) if nm.endswith("CstData::close") or _closes_param(inst, nm)]
                     if cl and all(body.dominates(c, pt[0]) for c in cl):
                         rep.ok(rid, "%s close_error_node clears error_node after the close" % inst.label)
                     else:
@@ -558,15 +597,12 @@ def s9_guard(inst, rep, rid="S9"):
             if not tyok:
                 continue
             if rel == "Parser::error":
-                guard = False
-                for b in body.reachable():
-                    tt = body.term(b)
-                    if tt["t"] == "switch":
-                        e = pr.operand(tt["d"])
-                        if e[0] == "call" and is_call(e, "Parser::active_error"):
-                            for tgt, lab in body.succ_edges(b):
-                                if lab == ("v", 0) and flow.edge_dominates(body, (b, tgt), pt[0]):
-                                    guard = True
+                facts = _bool_gates(body, pt[0])
+                not_active = any(a[0] == "call" and is_call(a, "Parser::active_error") and tr is False for a, tr in facts)
+                # or the definition of active_error written out: no open error node and nothing reported since the last advance
+                no_node = any(a[0] == "call" and mentions_field(a, "Parser", "error_node") and ((is_call(a, "Option::is_none") and tr is True) or (is_call(a, "Option::is_some") and tr is False)) for a, tr in facts)
+                no_flag = any(is_field(a, "Parser", "error_since_advance") and tr is False for a, tr in facts)
+                guard = not_active or (no_node and no_flag)
                 st = [p for p, a, f, v, _s in stores(body) if a == "Parser" and f == "error_since_advance" and v == ("const", "bool", 1)]
                 same = any(body.dominates(p[0], pt[0]) and body.postdominates(pt[0], p[0]) for p in st)
                 if guard and same and args[1][0] == "param":
